@@ -49,6 +49,7 @@ fn parse_ctx(args: &[String]) -> Ctx {
         .map(|n| n.get())
         .unwrap_or(8);
     let mut only = None;
+    let mut only_item = None;
     let mut i = 1;
     while i < args.len() {
         match args[i].as_str() {
@@ -79,6 +80,10 @@ fn parse_ctx(args: &[String]) -> Ctx {
                 i += 1;
                 only = args.get(i).cloned();
             }
+            "--item" => {
+                i += 1;
+                only_item = args.get(i).and_then(|s| s.parse().ok());
+            }
             _ => usage(),
         }
         i += 1;
@@ -90,7 +95,48 @@ fn parse_ctx(args: &[String]) -> Ctx {
         profile: PROFILE,
         threads,
         only,
+        only_item,
     }
+}
+
+/// liveness monitor: more than `limit` CPU-seconds inside one crate call is reported as a violation
+fn liveness(ctx: &Ctx, as_sub: bool) {
+    let limit: u64 = std::env::var("VERIF_HANG_CPU_S").ok().and_then(|s| s.parse().ok()).unwrap_or(match ctx.tier {
+        Tier::Quick => 90,
+        Tier::Thorough => 240,
+    });
+    let c = ctx.clone();
+    infra::start_liveness_monitor(
+        limit,
+        Box::new(move |item, cpu_s| {
+            let sig = format!("{}/call-does-not-return", c.id);
+            let what = format!(
+                "a worker spent {:.0} CPU-seconds in work item #{} of {} ({} tier, seed {}, profile {}) without completing a single call into the crate (calls normally take microseconds): a call into the crate does not return. Reproduce with: pdsmon check {} --tier {} --seed {} --item {}",
+                cpu_s, item, c.id, c.tier.name(), c.seed, c.profile, c.id, c.tier.name(), c.seed, item
+            );
+            if as_sub {
+                let mut rep = Report::new();
+                rep.violation(sig, what, serde_json::json!({"item": item, "profile": c.profile}));
+                rep.evaluations = 1;
+                println!("REPORT {}", serde_json::to_string(&rep).unwrap());
+                std::process::exit(0);
+            }
+            let dir = verif_dir();
+            let path = format!("{}/replays/{}-{}-{}-hang.json", dir, c.id, c.tier.name(), c.seed);
+            let _ = std::fs::create_dir_all(format!("{}/replays", dir));
+            let doc = serde_json::json!({"property": c.id, "tier": c.tier.name(), "seed": c.seed, "profile": c.profile, "signature": sig, "what": what, "witness": {"item": item}});
+            let _ = std::fs::write(&path, serde_json::to_string_pretty(&doc).unwrap());
+            println!("VIOLATION property={} replay={}", c.id, path);
+            println!("  signature: {}", sig);
+            println!("  what: {}", what);
+            let ev = serde_json::json!({"property_id": c.id, "tier": c.tier.name(), "seed": c.seed, "level": "exploration",
+                "coverage": {"evaluations": 1, "distinct_nontrivial": 0, "rule": "run aborted by the liveness monitor", "samples": [what], "replays": [path]},
+                "assumptions": [], "wall_s": 0.0, "violations": 1});
+            let _ = std::fs::write(format!("{}/evidence/{}.json", dir, c.id), serde_json::to_string_pretty(&ev).unwrap());
+            println!("VIOLATED property={} tier={} seed={} (liveness monitor)", c.id, c.tier.name(), c.seed);
+            std::process::exit(1);
+        }),
+    );
 }
 
 fn watchdog(ctx: &Ctx) {
@@ -131,6 +177,9 @@ pub fn run_dbg_sub(ctx: &Ctx) -> Result<Report, String> {
     if let Some(o) = &ctx.only {
         cmd.arg("--only").arg(o);
     }
+    if let Some(o) = ctx.only_item {
+        cmd.arg("--item").arg(format!("{}", o));
+    }
     let out = cmd.output().map_err(|e| format!("spawn {}: {}", exe, e))?;
     if !out.status.success() {
         return Err(format!(
@@ -162,6 +211,7 @@ fn main() {
             let ctx = parse_ctx(&args[1..]);
             let start = Instant::now();
             watchdog(&ctx);
+            liveness(&ctx, false);
             let p = props::lookup(&ctx.id).unwrap_or_else(|| {
                 eprintln!("unknown property {}", ctx.id);
                 std::process::exit(3)
@@ -193,6 +243,7 @@ fn main() {
         "sub" => {
             let ctx = parse_ctx(&args[1..]);
             watchdog(&ctx);
+            liveness(&ctx, true);
             let p = props::lookup(&ctx.id).unwrap_or_else(|| std::process::exit(3));
             let rep = (p.run)(&ctx);
             println!("REPORT {}", serde_json::to_string(&rep).unwrap());
